@@ -270,6 +270,20 @@ def uninstall_symbolic():
     _state['saved'] = None
 
 
+def install_seeded(seed):
+    """concrete runs: reproducible randomness (dealer coefficients, masks) from a seeded generator"""
+    M = modules(); thresha, rtmod = M['thresha'], M['rtmod']
+    if not _state.get('saved_sec'):
+        _state['saved_sec'] = (thresha.secrets, rtmod.secrets)
+    rnd = pyrandom.Random(seed)
+
+    class _Secrets:
+        randbelow = staticmethod(lambda n: rnd.randrange(n))
+        randbits = staticmethod(lambda k: rnd.getrandbits(k))
+        token_bytes = staticmethod(lambda n: bytes(rnd.getrandbits(8) for _ in range(n)))
+    thresha.secrets = _Secrets; rtmod.secrets = _Secrets
+
+
 def install_symbolic():
     """stubs needed when PolyInt values flow through the real primitives: randomness, marshalling"""
     M = modules(); thresha, finfields, rtmod = M['thresha'], M['finfields'], M['rtmod']
